@@ -78,6 +78,8 @@ type HarnessResult struct {
 	SolverMs       int64              `json:"solver_ms"`
 	SolverMaxMs    int64              `json:"solver_max_ms"`
 	FeasQueries    int                `json:"feasibility_queries"`
+	FeasSolverMs   int64              `json:"feasibility_solver_ms"`
+	PoolHits       int                `json:"feasibility_answered_by_model_pool"`
 	MaxLoopIter    int                `json:"max_loop_iterations"`
 	UnwindCap      int                `json:"unwind_cap"`
 	Aborts         map[string]int     `json:"abort_sites"`
@@ -85,6 +87,10 @@ type HarnessResult struct {
 	Overrides      map[string]string  `json:"overrides,omitempty"`
 	GoModes        map[string]string  `json:"go_modes,omitempty"`
 	Nondets        int                `json:"nondet_inputs"`
+	Paths          int                `json:"paths"`
+	MaxTermNodes   int                `json:"-"`
+	ForcedBranches int                `json:"branches_with_one_feasible_side"`
+	PathEnds       map[string]int     `json:"path_ends,omitempty"`
 	Samples        []any              `json:"samples,omitempty"`
 	ExecSeconds    float64            `json:"exec_s"`
 	Validated      int                `json:"traces_validated_against_impl"`
@@ -171,7 +177,7 @@ func (r *Run) newInterp(ld *Loaded, fn *ssa.Function, d Directives, solver *Solv
 func (r *Run) runHarness(ld *Loaded, fn *ssa.Function, src string) {
 	d := parseDirectives(src, fn.Name())
 	hr := &HarnessResult{Name: fn.Name(), Package: pkgRel(r.Repo, fn, ld), Params: r.Params, Reach: map[string]string{},
-		Aborts: map[string]int{}, Stubs: d.Stubs, Overrides: d.Overrides, GoModes: d.GoModes}
+		Aborts: map[string]int{}, PathEnds: map[string]int{}, Stubs: d.Stubs, Overrides: d.Overrides, GoModes: d.GoModes}
 	r.Harnesses = append(r.Harnesses, hr)
 
 	// ---- translator validation: concrete runs in engine vs native build
@@ -192,11 +198,87 @@ func (r *Run) runHarness(ld *Loaded, fn *ssa.Function, src string) {
 		defer f.Close()
 		solver.log = f
 	}
+	seenSample := map[string]bool{}
+	knownSeen := map[string]bool{}
+	work := [][]bool{nil}
+	maxPaths := d.MaxPaths
+	if maxPaths == 0 {
+		maxPaths = 20000
+	}
+	var pool []map[string]uint64
+	tStart := time.Now()
+	for len(work) > 0 {
+		dec := work[len(work)-1]
+		work = work[:len(work)-1]
+		if hr.Paths >= maxPaths {
+			hr.Inconclusive = append(hr.Inconclusive, fmt.Sprintf("path cap %d reached with %d paths pending", maxPaths, len(work)+1))
+			fmt.Printf("INCONCLUSIVE property=%s harness=%s path cap %d reached\n", r.Prop, fn.Name(), maxPaths)
+			break
+		}
+		if hr.Paths > 0 {
+			resetTerms()
+			solver.Reset()
+		}
+		hr.Paths++
+		in, ended := r.execPath(ld, fn, d, hr, solver, dec, pool)
+		pool = in.pool
+		work = append(work, in.newWork...)
+		hr.ForcedBranches += in.forced
+		if ended != "" {
+			hr.PathEnds[ended]++
+		}
+		r.processPath(ld, fn, d, hr, in, solver, seenSample, knownSeen)
+		if d.Mode != "fork" {
+			break
+		}
+	}
+	hr.ExecSeconds = time.Since(tStart).Seconds()
+	for name, res := range hr.Reach {
+		if res != "sat" {
+			hr.Inconclusive = append(hr.Inconclusive, "reachability twin "+name+" is "+res+" (vacuous harness?)")
+			fmt.Printf("BROKEN property=%s harness=%s reachability twin %s is %s\n", r.Prop, fn.Name(), name, res)
+			r.broken++
+		}
+	}
+	hr.TermNodes = hr.MaxTermNodes
+	hr.Queries = solver.Queries
+	hr.SolverMs = solver.TotalTime.Milliseconds()
+	hr.SolverMaxMs = solver.MaxTime.Milliseconds()
+	if solver.Errors > 0 {
+		hr.Inconclusive = append(hr.Inconclusive, fmt.Sprintf("%d solver errors", solver.Errors))
+	}
+	// compress results: keep non-unsat ones and a few samples
+	var kept []ObligationResult
+	nUnsat := 0
+	for _, o := range hr.Results {
+		if o.Result == "unsat" || o.Result == "trivial" {
+			nUnsat++
+			if nUnsat > 12 {
+				continue
+			}
+		}
+		kept = append(kept, o)
+	}
+	hr.Results = kept
+	fmt.Printf("[%s] paths=%d obligations=%d discharged=%d nontrivial=%d violations=%d known=%d inconclusive=%d queries=%d solver=%.2fs (max %.2fs)\n",
+		fn.Name(), hr.Paths, hr.Obligations, hr.Discharged, hr.Nontrivial, hr.Violations, len(hr.KnownFindings), len(hr.Inconclusive),
+		solver.Queries, solver.TotalTime.Seconds(), solver.MaxTime.Seconds())
+}
+
+// execPath runs the harness once (whole run in merge mode, one path in fork mode).
+func (r *Run) execPath(ld *Loaded, fn *ssa.Function, d Directives, hr *HarnessResult, solver *Solver, dec []bool, pool []map[string]uint64) (*Interp, string) {
 	in := r.newInterp(ld, fn, d, solver)
-	t0 := time.Now()
+	in.forkMode = d.Mode == "fork"
+	in.decisions = dec
+	in.pool = pool
+	ended := ""
 	func() {
 		defer func() {
 			if e := recover(); e != nil {
+				if pe, ok := e.(pathEnd); ok {
+					ended = pe.why
+					return
+				}
 				fmt.Fprintf(os.Stderr, "ENGINE PANIC in %s at %s: %v\ncall stack: %s\n", fn.Name(), in.curSite, e, strings.Join(in.callStack, " > "))
 				if r.Trace {
 					panic(e)
@@ -207,18 +289,36 @@ func (r *Run) runHarness(ld *Loaded, fn *ssa.Function, src string) {
 		}()
 		in.callFn(nil, fn, nil, nil, tTrue, nil)
 	}()
-	hr.ExecSeconds = time.Since(t0).Seconds()
-	hr.Functions = in.fnStats
-	for k := range in.fnStats {
-		hr.FunctionInstrs += in.fnInstrs[k]
+	return in, ended
+}
+
+// processPath issues the verdict queries of one run / path.
+func (r *Run) processPath(ld *Loaded, fn *ssa.Function, d Directives, hr *HarnessResult, in *Interp, solver *Solver, seenSample, knownSeen map[string]bool) {
+	if in.feasSolver != nil {
+		hr.FeasSolverMs = in.feasSolver.TotalTime.Milliseconds()
+		in.feasSolver.Close()
+	}
+
+	if hr.Functions == nil {
+		hr.Functions = map[string]int{}
+	}
+	for k, v := range in.fnStats {
+		if _, ok := hr.Functions[k]; !ok {
+			hr.FunctionInstrs += in.fnInstrs[k]
+		}
+		hr.Functions[k] += v
 	}
 	hr.UnwindCap = in.unwind
-	hr.MaxLoopIter = in.maxIter
-	hr.Nondets = len(in.nondets)
-	hr.FeasQueries = in.feasQ
+	hr.MaxLoopIter = max(hr.MaxLoopIter, in.maxIter)
+	hr.Nondets = max(hr.Nondets, len(in.nondets))
+	hr.FeasQueries += in.feasQ
+	hr.PoolHits += in.poolHits
+	hr.MaxTermNodes = max(hr.MaxTermNodes, TermNodes)
 
-	fmt.Printf("[%s] executed in %.2fs: %d asserts, %d aborts, %d nondets, %d term nodes, %d functions\n",
-		fn.Name(), hr.ExecSeconds, len(in.asserts), len(in.aborts), len(in.nondets), TermNodes, len(in.fnStats))
+	if !in.forkMode {
+		fmt.Printf("[%s] executed: %d asserts, %d aborts, %d nondets, %d term nodes, %d functions\n",
+			fn.Name(), len(in.asserts), len(in.aborts), len(in.nondets), TermNodes, len(in.fnStats))
+	}
 
 	// ---- aborts: reachable unsupported/unwind sites make the run inconclusive
 	type agroup struct {
@@ -267,8 +367,6 @@ func (r *Run) runHarness(ld *Loaded, fn *ssa.Function, src string) {
 	}
 
 	// ---- reachability twins and assertions
-	seenSample := map[string]bool{}
-	knownSeen := map[string]bool{}
 	for _, a := range in.asserts {
 		base := []*Term{a.Assume, mkNot(a.Aborted), a.Guard}
 		if a.Kind == "reach" {
@@ -339,38 +437,10 @@ func (r *Run) runHarness(ld *Loaded, fn *ssa.Function, src string) {
 				}
 			}
 		}
-		hr.Results = append(hr.Results, or)
-	}
-	for name, res := range hr.Reach {
-		if res != "sat" {
-			hr.Inconclusive = append(hr.Inconclusive, "reachability twin "+name+" is "+res+" (vacuous harness?)")
-			fmt.Printf("BROKEN property=%s harness=%s reachability twin %s is %s\n", r.Prop, fn.Name(), name, res)
-			r.broken++
+		if len(hr.Results) < 400 || or.Result == "sat" || or.Result == "unknown" {
+			hr.Results = append(hr.Results, or)
 		}
 	}
-	hr.TermNodes = TermNodes
-	hr.Queries = solver.Queries
-	hr.SolverMs = solver.TotalTime.Milliseconds()
-	hr.SolverMaxMs = solver.MaxTime.Milliseconds()
-	if solver.Errors > 0 {
-		hr.Inconclusive = append(hr.Inconclusive, fmt.Sprintf("%d solver errors", solver.Errors))
-	}
-	// compress results: keep non-unsat ones and a few samples
-	var kept []ObligationResult
-	nUnsat := 0
-	for _, o := range hr.Results {
-		if o.Result == "unsat" || o.Result == "trivial" {
-			nUnsat++
-			if nUnsat > 12 {
-				continue
-			}
-		}
-		kept = append(kept, o)
-	}
-	hr.Results = kept
-	fmt.Printf("[%s] obligations=%d discharged=%d nontrivial=%d violations=%d known=%d inconclusive=%d queries=%d solver=%.2fs (max %.2fs)\n",
-		fn.Name(), hr.Obligations, hr.Discharged, hr.Nontrivial, hr.Violations, len(hr.KnownFindings), len(hr.Inconclusive),
-		solver.Queries, solver.TotalTime.Seconds(), solver.MaxTime.Seconds())
 }
 
 // decide answers one verdict query. A quick attempt comes first; if it is inconclusive and the
@@ -643,6 +713,7 @@ func vKnown(key string, c bool) bool { return c }
 func vLog(name string, v uint64)  { fmt.Printf("VERIF-LOG %%s %%d\n", name, v) }
 func vSymbolic() bool             { return false }
 func vSplit(c bool)               {}
+func vStats(name string)          {}
 func vParam(name string, def int) int {
 	vLoad()
 	if v, ok := vState.cex.Params[name]; ok {
